@@ -155,3 +155,8 @@ mod tests {
         assert!(decode_base64_yaml("A===").is_err());
     }
 }
+
+// verification hook: bounded-model-checking harnesses (compiled only by Kani, `--cfg kani`)
+#[cfg(kani)]
+#[path = "/verif/harness/h_base64.rs"]
+mod verif;
